@@ -5,7 +5,7 @@
    Examples with non-trivial inputs satisfying the hypotheses: Proofs/MiscKernelsAll.v. *)
 From Coq Require Import ZArith List Bool Lia.
 From EV Require Import Res Arr MiscKernels MiscKernelsSpec MiscKernelsBase MiscKernelsChunks MiscKernelsSizes
-  MiscKernelsInner MiscKernelsSort MiscKernelsStream MiscKernelsAll.
+  MiscKernelsInner MiscKernelsSort MiscKernelsStream MiscKernelsJoin MiscKernelsAll.
 Import ListNotations.
 Open Scope Z_scope.
 
@@ -98,6 +98,15 @@ Theorem ordered_inner_map_left_unique_streamed_chunk_boundary_refuted :
 Proof. exact MiscKernelsStream.ordered_inner_map_left_unique_streamed_chunk_boundary_refuted. Qed.
 Print Assumptions ordered_inner_map_left_unique_streamed_chunk_boundary_refuted.
 
+(* FULL (meaning of the walk). On a strictly increasing left column and a sorted right column whose runs of equal
+   keys do not cross a multiple of 4 rows (no_cross), the driver's result IS the inner join: every right row,
+   ascending, paired with the left row of the same key. *)
+Theorem ordered_inner_map_left_unique_streamed_is_inner_join : forall L R,
+  ssortedb L = true -> sortedb R = true -> no_cross 4 4 R = true ->
+  ilus_spec 4 L R = inner_left_unique_join L R.
+Proof. exact MiscKernelsJoin.streamed_is_inner_join. Qed.
+Print Assumptions ordered_inner_map_left_unique_streamed_is_inner_join.
+
 (* ------------------------------------------------------------------ ordered_get_last_as_filter *)
 (* FULL, all inputs, repaired code (fix F-C10a). *)
 Theorem ordered_get_last_as_filter_correct : forall field,
@@ -154,6 +163,15 @@ Theorem data_iterator_orig_second_chunk_refuted :
   exists D cs, 1 <= cs /\ data_iterator false (chunks_fuel (len D)) D cs = OOB 170.
 Proof. exact MiscKernelsChunks.data_iterator_orig_second_chunk_refuted. Qed.
 Print Assumptions data_iterator_orig_second_chunk_refuted.
+
+(* FULL characterisation of the code as found: EVERY column longer than one chunk ends in the out-of-bounds read
+   (the second chunk overruns its window unless there are three full chunks - it then yields the wrong rows - and
+   in that case the third chunk does). *)
+Theorem data_iterator_orig_beyond_one_chunk_oob_refuted : forall D cs fuel,
+  1 <= cs -> cs < len D -> (chunks_fuel (len D) <= fuel)%nat ->
+  data_iterator false fuel D cs = OOB 170.
+Proof. exact MiscKernelsChunks.data_iterator_orig_fails_beyond_one_chunk. Qed.
+Print Assumptions data_iterator_orig_beyond_one_chunk_oob_refuted.
 
 (* ------------------------------------------------------------------ dict / flag helpers (interpreted) *)
 Theorem foreign_key_is_in_primary_key_correct : forall pk fk,
